@@ -748,7 +748,16 @@ class ExprMixin:
             v = self.wrap_sort(f(bt_), S.inner if isinstance(S, api.Opt) else S)
             if isinstance(S, api.Opt):
                 nf = self.ufun(f'attr_{attr}_none', self.zs.zsort(api.Obj), z3.BoolSort())
-                return VOpt(nf(bt_), v)
+                v = VOpt(nf(bt_), v)
+            if not getattr(self, '_in_text', 0):
+                # code reading an attribute that the code has assigned on this path: the last write to THIS object wins
+                for wt, wa, wv in getattr(self.path, 'obj_writes', []):
+                    if wa == attr:
+                        same = simp(bt_ == wt)
+                        if z3.is_true(same):
+                            v = wv
+                        elif not z3.is_false(same):
+                            v = self.ite(same, wv, v)
             return v
         raise Unsupported(f'opaque attribute {attr}: declare it under Contract.opaque')
 
